@@ -6,7 +6,8 @@ from .. import xengine, gen
 
 QUICK = (['h_bip13_add', 'h_bip22_add', 'h_bip22_addfrom', 'h_bip23_add', 'h_bip31_add', 'h_bip32_add', 'h_complete_bip',
           'h_digraph2_add', 'h_digraph2_addfrom', 'h_graph2_add', 'h_graph2_remove', 'h_graph2_update', 'h_graph2_addfrom',
-          'h_graph3_add', 'h_graph3_remove', 'h_graph3_update', 'h_graph4_update', 'h_graph2_grow_add', 'h_graph3_grow_add'] +
+          'h_graph3_add', 'h_graph3_remove', 'h_graph3_update', 'h_graph4_update', 'h_graph2_grow_add', 'h_graph3_grow_add',
+          'h_graph4_addfrom3', 'h_digraph4_addfrom3', 'h_bip33_addfrom3'] +
          ['h_graph2_hist2_%d%d' % (a, b) for a in range(3) for b in range(3)])
 THOROUGH = QUICK + ['h_digraph3_add', 'h_graph3_addfrom', 'h_graph4_add', 'h_graph4_remove'] + \
     ['h_graph3_hist2_%d%d' % (a, b) for a in range(3) for b in range(3)] + \
@@ -162,7 +163,7 @@ def run(tier):
     run.bounds = ['Graph n<=%d one step; two-step histories n<=%d; three-step histories n=2 (thorough)' % ((3, 2) if tier == 'quick' else (4, 3)),
                   'DirectedGraph n<=%d incl. loops; BipartiteGraph sides up to (3,2)/(2,3); CompleteBipartiteGraph sides<=3' % (2 if tier == 'quick' else 3),
                   'arguments from -1/0 up to n+2']
-    run.bounds += ['three observation schedules per history (views read before and after every step / after every step / only at the end)', 'add_edges_from given a list, tuple, generator, iterator, map, zip or dict keys', 'networkx sweep (plain enumeration): every view incl. is_dag after to_networkx/from_networkx on the whole box; hand-built networkx DiGraphs and bipartite graphs']
+    run.bounds += ['three observation schedules per history (views read before and after every step / after every step / only at the end)', 'add_edges_from given a list, tuple, generator, iterator, map, zip or dict keys', 'bulk insertion of three pairs into graphs on 4 vertices (3+3 bipartite), the illegal pair at any position: the valid prefix (or nothing) is inserted, every view agrees, and one more insertion still works', 'networkx sweep (plain enumeration): every view incl. is_dag after to_networkx/from_networkx on the whole box; hand-built networkx DiGraphs and bipartite graphs']
     run.outside = ['larger graphs, longer histories', 'symbolic reasoning about unknown vertex numbers (not reachable: hashing realises them)']
     run.assumptions = ['CrossHair exhaustiveness accounting; model = python set of pairs',
                        'add_edges_from with an illegal edge: either sequential semantics (earlier edges stay) or no effect is accepted']
